@@ -1364,6 +1364,10 @@ func areEqualValTuple(query sqlparser.ValTuple, pattern sqlparser.ValTuple) bool
 	// It's allowed to use this pattern combined with %%VALUE%% only
 	// at last position in tuple
 	if len(query) > len(pattern) {
+		// an empty tuple in the pattern ("VALUES ()") has no last element to look at
+		if len(pattern) == 0 {
+			return false
+		}
 		patternValue, ok := pattern[len(pattern)-1].(*sqlparser.SQLVal)
 		if !ok {
 			return false
